@@ -1,0 +1,122 @@
+//go:build verif
+
+package migrator
+
+// Machine-checked contracts (comment-only; compiled only with -tags verif).
+//
+// Property C23 (V1 -> V2 migration preserves the loadable data; a failed or unverified migration
+// leaves the legacy data intact). Under contract here:
+//   ByteReader            exact functional contracts of the V1 stream reader (no precondition on the bytes);
+//   parseV1Segments       never panics on any byte stream, allocates only what the stream holds, every
+//                         segment it returns is non-empty and is a copy of the bytes that follow its
+//                         4-byte little-endian length prefix; the loop always makes progress;
+//   writeV2File           writes every entry, in order, into a writer created WITH the swamp name; any
+//                         failure removes the new file and is returned; success means the file was closed
+//                         (and so synced) without error;
+//   verifyMigration       nil only if every migrated key is in the index loaded back from the new file;
+//   migrateSwamp          the legacy files are deleted only after the load succeeded and - unless the swamp
+//                         is empty - the V2 file was written and (if enabled) verified; a dry run writes
+//                         and deletes nothing; a failed verification removes the new file.
+// Not under contract (assumed): gob decoding of records and of the meta file, the compressor, directory
+// listing order, the legacy parser filesystem.parseBinaryData (so "both parsers agree" is NOT decided).
+
+//@ pure le32(b, off) = b[off] + 256*b[off+1] + 65536*b[off+2] + 16777216*b[off+3]
+
+//@ func (*ByteReader).Remaining(r) (n)
+//@   property C23
+//@   nopanic
+//@   requires[inside] 0 <= r.offset && r.offset <= len(r.data)
+//@   ensures[remaining] n == len(r.data) - r.offset
+
+//@ func (*ByteReader).ReadUint32(r) (v, err)
+//@   property C23
+//@   nopanic
+//@   overflow: assumed
+//@   requires[inside] 0 <= r.offset && r.offset <= len(r.data)
+//@   modifies r.offset
+//@   ensures[short_is_eof] old(r.offset) + 4 > len(r.data) ==> err == global("io.EOF") && r.offset == old(r.offset)
+//@   ensures[value] old(r.offset) + 4 <= len(r.data) ==> err == nil && v == le32(r.data, old(r.offset)) && r.offset == old(r.offset) + 4
+
+//@ func (*ByteReader).ReadBytes(r, n) (out, err)
+//@   property C23
+//@   nopanic
+//@   overflow: assumed
+//@   allocbound len(r.data)
+//@   requires[inside] 0 <= r.offset && r.offset <= len(r.data)
+//@   requires[count] n >= 0
+//@   modifies r.offset
+//@   ensures[short_is_error] old(r.offset) + n > len(r.data) ==> err != nil && isnil(out) && r.offset == old(r.offset)
+//@   ensures[copy] old(r.offset) + n <= len(r.data) ==> err == nil && len(out) == n && fresh(out) && r.offset == old(r.offset) + n && forall i in 0..n: out[i] == r.data[old(r.offset) + i]
+
+//@ func (*ByteReader).Skip(r, n) (err)
+//@   property C23
+//@   nopanic
+//@   overflow: assumed
+//@   requires[inside] 0 <= r.offset && r.offset <= len(r.data)
+//@   modifies r.offset
+//@   ensures[short_is_eof] old(r.offset) + n > len(r.data) ==> err != nil && r.offset == old(r.offset)
+//@   ensures[skipped] old(r.offset) + n <= len(r.data) ==> err == nil && r.offset == old(r.offset) + n
+
+//@ func NewByteReader(data) (r)
+//@   property C23
+//@   nopanic
+//@   ensures[at_start] r != nil && fresh(r) && r.offset == 0 && len(r.data) == len(data) && sliceid(r.data) == sliceid(data) && sliceoff(r.data) == sliceoff(data)
+
+//@ func (*Migrator).parseV1Segments(m, data) (segments, err)
+//@   property C23
+//@   nopanic
+//@   overflow: assumed
+//@   loop 0 invariant[reader] reader != nil && 0 <= reader.offset && reader.offset <= len(reader.data) && len(reader.data) == len(data) && sliceid(reader.data) == sliceid(data) && sliceoff(reader.data) == sliceoff(data)
+//@   loop 0 invariant[segments_private] isnil(segments) || fresh(segments)
+//@   loop 0 invariant[caller_memory_kept] entrymem()
+//@   loop 0 invariant[segments_nonempty] forall k in 0..len(segments): len(segments[k]) > 0
+//@   loop 0 decreases len(reader.data) - reader.offset
+//@   ensures[segments_nonempty] err == nil ==> forall k in 0..len(segments): len(segments[k]) > 0
+//@   ensures[error_returns_nothing] err != nil ==> isnil(segments)
+
+// ---------------------------------------------------------------------------------------
+// Writing, verifying, deleting.
+
+//@ func (*Migrator).writeV2File(m, filePath, entries, swampName) (err)
+//@   property C23
+//@   overflow: assumed
+//@   modifies *
+//@   loop 0 invariant[written_in_order] calls("FileWriter.WriteEntry") == old(calls("FileWriter.WriteEntry")) + rangeindex + 1 && calls("FileWriter.Close") == old(calls("FileWriter.Close")) && calls("Remove") == old(calls("Remove"))
+//@   loop 0 invariant[all_written_so_far_succeeded] calls("FileWriter.WriteEntry") > old(calls("FileWriter.WriteEntry")) ==> isnil(lastret("FileWriter.WriteEntry"))
+//@   before FileWriter.WriteEntry [entries_written_in_order] arg1 == entries[calls("FileWriter.WriteEntry") - old(calls("FileWriter.WriteEntry"))] && arg0 == lastret("NewFileWriterWithName")
+//@   ensures[name_is_stored] calls("NewFileWriterWithName") == old(calls("NewFileWriterWithName")) + 1 && calledwith("NewFileWriterWithName", 0, filePath) && calledwith("NewFileWriterWithName", 2, swampName)
+//@   ensures[success_wrote_everything_and_closed] err == nil ==> calls("FileWriter.WriteEntry") == old(calls("FileWriter.WriteEntry")) + len(entries) && calls("FileWriter.Close") == old(calls("FileWriter.Close")) + 1 && isnil(lastret("FileWriter.Close")) && calls("Remove") == old(calls("Remove"))
+//@   ensures[failed_write_is_reported] calls("FileWriter.WriteEntry") > old(calls("FileWriter.WriteEntry")) && !isnil(lastret("FileWriter.WriteEntry")) ==> err != nil
+//@   ensures[failed_close_is_reported] calls("FileWriter.Close") > old(calls("FileWriter.Close")) && !isnil(lastret("FileWriter.Close")) ==> err != nil
+//@   ensures[failure_after_create_removes_the_new_file] err != nil && !isnil(lastret("NewFileWriterWithName")) ==> calls("Remove") == old(calls("Remove")) + 1 && calledwith("Remove", 0, filePath)
+
+//@ func (*Migrator).verifyMigration(m, hydFilePath, originalEntries) (err)
+//@   property C23
+//@   overflow: assumed
+//@   modifies *
+//@   loop 0 invariant[expected_so_far] expectedKeys != nil && forall i in 0..rangeindex+1: has(expectedKeys, originalEntries[i].Key)
+//@   loop 1 invariant[found_so_far] forall k in keys(expectedKeys): visited(k) ==> has(index, k)
+//@   ensures[verified_means_every_key_loads_back] err == nil ==> calls("NewFileReader") == old(calls("NewFileReader")) + 1 && calledwith("NewFileReader", 0, hydFilePath) && calls("FileReader.LoadIndex") == old(calls("FileReader.LoadIndex")) + 1 && isnil(lastret("FileReader.LoadIndex", 2)) && forall i in 0..len(originalEntries): has(lastret("FileReader.LoadIndex", 0), originalEntries[i].Key)
+//@   ensures[reader_closed] calls("NewFileReader") > old(calls("NewFileReader")) && isnil(lastret("NewFileReader", 1)) ==> calls("FileReader.Close") == old(calls("FileReader.Close")) + 1
+
+//@ func (*Migrator).loadSwampNameFromMeta(m, folderPath) (name, err)
+//@   opaque
+//@ func (*Migrator).loadV1Swamp(m, folderPath) (entries, raw, dup, err)
+//@   opaque
+//@ func (*Migrator).deleteV1Files(m, folderPath) (err)
+//@   opaque
+//@ func (*Migrator).recordFailure(m, path, errorMsg, phase)
+//@   opaque
+
+//@ func (*Migrator).migrateSwamp(m, folderPath)
+//@   property C23
+//@   overflow: assumed
+//@   modifies *
+//@   before Migrator.deleteV1Files [legacy_deleted_only_after_the_new_file_is_written_and_verified] arg1 == folderPath && m.config.DeleteOld && !m.config.DryRun && isnil(lastret("Migrator.loadV1Swamp", 3)) && (len(lastret("Migrator.loadV1Swamp", 0)) == 0 || (calls("Migrator.writeV2File") == old(calls("Migrator.writeV2File")) + 1 && isnil(lastret("Migrator.writeV2File")) && (m.config.Verify ==> calls("Migrator.verifyMigration") == old(calls("Migrator.verifyMigration")) + 1 && isnil(lastret("Migrator.verifyMigration")))))
+//@   before Migrator.writeV2File [writes_what_was_loaded_under_the_legacy_name] len(arg1) == len(folderPath) + 4 && sliceid(arg2) == sliceid(lastret("Migrator.loadV1Swamp", 0)) && sliceoff(arg2) == sliceoff(lastret("Migrator.loadV1Swamp", 0)) && len(arg2) == len(lastret("Migrator.loadV1Swamp", 0)) && arg3 == lastret("Migrator.loadSwampNameFromMeta", 0) && !m.config.DryRun
+//@   before Migrator.verifyMigration [verifies_the_file_just_written_against_what_was_loaded] arg1 == lastarg("Migrator.writeV2File", 1) && sliceid(arg2) == sliceid(lastret("Migrator.loadV1Swamp", 0)) && sliceoff(arg2) == sliceoff(lastret("Migrator.loadV1Swamp", 0)) && len(arg2) == len(lastret("Migrator.loadV1Swamp", 0))
+//@   ensures[dry_run_touches_nothing] m.config.DryRun ==> calls("Migrator.writeV2File") == old(calls("Migrator.writeV2File")) && calls("Migrator.deleteV1Files") == old(calls("Migrator.deleteV1Files")) && calls("Remove") == old(calls("Remove"))
+//@   ensures[failed_load_touches_nothing] !isnil(lastret("Migrator.loadV1Swamp", 3)) ==> calls("Migrator.writeV2File") == old(calls("Migrator.writeV2File")) && calls("Migrator.deleteV1Files") == old(calls("Migrator.deleteV1Files")) && calls("Migrator.recordFailure") == old(calls("Migrator.recordFailure")) + 1
+//@   ensures[failed_write_keeps_legacy_and_is_recorded] calls("Migrator.writeV2File") > old(calls("Migrator.writeV2File")) && !isnil(lastret("Migrator.writeV2File")) ==> calls("Migrator.deleteV1Files") == old(calls("Migrator.deleteV1Files")) && calls("Migrator.recordFailure") == old(calls("Migrator.recordFailure")) + 1
+//@   ensures[failed_verification_removes_new_file_keeps_legacy_and_is_recorded] calls("Migrator.verifyMigration") > old(calls("Migrator.verifyMigration")) && !isnil(lastret("Migrator.verifyMigration")) ==> calls("Migrator.deleteV1Files") == old(calls("Migrator.deleteV1Files")) && calls("Remove") == old(calls("Remove")) + 1 && calledwith("Remove", 0, lastarg("Migrator.writeV2File", 1)) && calls("Migrator.recordFailure") == old(calls("Migrator.recordFailure")) + 1
+//@   ensures[verification_runs_when_enabled] m.config.Verify && calls("Migrator.writeV2File") > old(calls("Migrator.writeV2File")) && isnil(lastret("Migrator.writeV2File")) ==> calls("Migrator.verifyMigration") == old(calls("Migrator.verifyMigration")) + 1
